@@ -26,8 +26,9 @@ RULE = (
     "DataFrame objects passed again, as a pipeline holding one loaded baseline would), summary(i) (bootstrap national "
     "summary after a run); model = digest of the first result of i; every later result of i must equal it bit for bit "
     "whatever ran in between. (b) the same serialised case run in fresh interpreters under PYTHONHASHSEED 0, 1 and "
-    "random (incl. a historical-evaluation case whose aggregate order goes through a set): table digests and key order "
-    "of the returned dict must agree. (c) seeds: equal seeds equal results (a); a different seed changes some result "
+    "random (incl. historical-evaluation cases, whose aggregate order goes through a set): the table digests and the "
+    "set of returned tables must agree (the ORDER of the keys of the returned dict does depend on the hash seed in the "
+    "historical client; that is not table content and is not asserted). (c) seeds: equal seeds equal results (a); a different seed changes some result "
     "(anti-vacuity, reported). Non-trivial: a history in which request i is run at least twice with a different request "
     "in between. Distinct = history shape (sequence of rule names and estimators)."
 )
@@ -67,11 +68,24 @@ class Histories(RuleBasedStateMachine):
         self.trace = []
         self.last_on_client = None
         self.failed = False
+        self.shared = False
 
-    @initialize(cases=st.lists(small_case(), min_size=2, max_size=3))
-    def setup(self, cases):
+    @initialize(cases=st.lists(small_case(), min_size=2, max_size=3), shared=st.booleans())
+    def setup(self, cases, shared):
         from elexmodel.client import ModelClient
 
+        self.shared = shared
+        if shared:
+            # one election, several requests: a pipeline that holds ONE loaded baseline / feed and asks for
+            # different estimands and estimators; run_reusing_frames then passes the same frame objects to all
+            first = cases[0]
+            valid = gen.valid_aggregates(first["office"]) + ["unit"]
+            for c in cases[1:]:
+                for k in ("office", "gut", "states", "float_votes", "units", "extra"):
+                    c[k] = copy.deepcopy(first[k])
+                c["req"]["aggregates"] = [a for a in c["req"]["aggregates"] if a in valid] or ["postal_code", "unit"]
+                c["req"]["mp"].pop("unit_blocklist", None)
+                c["req"]["mp"].pop("postal_code_blocklist", None)
         self.cases = cases
         self.client = ModelClient()
         Histories.ctx.evaluated()
@@ -89,7 +103,7 @@ class Histories(RuleBasedStateMachine):
             return
         if key != self.first[i][0] and not self.failed:
             self.failed = True
-            stored = {"case": case, "history": [list(t) for t in self.trace], "pool": self.cases, "index": i}
+            stored = {"case": case, "history": [list(t) for t in self.trace], "pool": self.cases, "index": i, "shared": self.shared}
             ctx.violation(
                 "result_differs",
                 f"request {i} ({case['req']['pi']}): first result via {self.first[i][1]} = {self.first[i][0][:2]}, now via {how} = {key[:2]}; history {self.trace}",
@@ -113,9 +127,10 @@ class Histories(RuleBasedStateMachine):
     @rule(i=st.integers(0, 2))
     def run_reusing_frames(self, i):
         i %= len(self.cases)
-        if i not in self.frames:
-            self.frames[i] = make_frames(self.cases[i])
-        r = run_case(self.cases[i], client=self.client, frames=self.frames[i])
+        fk = 0 if self.shared else i
+        if fk not in self.frames:
+            self.frames[fk] = make_frames(self.cases[fk])
+        r = run_case(self.cases[i], client=self.client, frames=self.frames[fk])
         self.last_on_client = i if r.ok else None
         self._record(i, r, "run_reusing_frames")
 
@@ -158,6 +173,7 @@ class Histories(RuleBasedStateMachine):
         for how, pi, i in self.trace:
             ctx.label(f"rule:{how}")
             ctx.label(f"pi:{pi}")
+        ctx.label("pool:" + ("one election, several requests" if self.shared else "separate elections"))
         if nontrivial:
             ctx.nontrivial(
                 jhash([(h, p) for h, p, _ in self.trace]),
@@ -192,15 +208,17 @@ if case.get("historical"):
     else:
         res = {}
         for hid, d in out.items():
-            res[hid] = {"digest": table_digest(d["estimates"], case["office"]), "keys": list(d["estimates"].keys()),
-                        "evaluation": json.dumps(d["evaluation"], sort_keys=True, default=str)}
+            def strkeys(o):
+                return {str(k): strkeys(v) for k, v in o.items()} if isinstance(o, dict) else o
+            res[hid] = {"digest": table_digest(d["estimates"], case["office"]), "keys": sorted(d["estimates"].keys()),
+                        "evaluation": json.dumps(strkeys(d["evaluation"]), sort_keys=True, default=str)}
         print(json.dumps(res))
 else:
     r = run_case(case)
     if not r.ok:
         print(json.dumps({"exc": type(r.exc).__name__ + ": " + str(r.exc)[:200]}))
     else:
-        print(json.dumps({"digest": table_digest(r.tables, case["office"]), "keys": list(r.tables.keys())}))
+        print(json.dumps({"digest": table_digest(r.tables, case["office"]), "keys": sorted(r.tables.keys())}))
 """
 
 
@@ -228,13 +246,16 @@ def check_subprocess(case, ctx):
 
 
 @st.composite
-def _sub_strategy(draw):
-    hist = draw(st.integers(0, 3)) == 0
+def _sub_strategy(draw, stratum=None):
+    # stratified by shard: nonparametric / gaussian / bootstrap / historical each get a quarter of the shards
+    kinds = ["nonparametric", "gaussian", "bootstrap", "historical"]
+    kind = kinds[stratum % 4] if stratum is not None else draw(st.sampled_from(kinds))
+    hist = kind == "historical"
     if hist:
         case = draw(small_case(estimators=("nonparametric",), offices=("G",), allow_extra=False, policies=("drop",), aggregates_mode="any", statuses=(gen.N, gen.N0, gen.A), special_counties=False, allow_state_blocklist=False, tf_limits=((0.5, 2.0),)))
         case["historical"] = True
     else:
-        case = draw(small_case())
+        case = draw(small_case(estimators=(kind,), min_nonrep=1))
     return case
 
 
@@ -261,7 +282,7 @@ def run_part(name, seed, n, tier, ctx, si, sc):
     if name == "machine":
         run_machine(seed, n, tier, ctx)
     elif name == "subprocess":
-        hyp_run(_sub_strategy(), lambda case: check_subprocess(case, ctx), seed, n, tier)
+        hyp_run(_sub_strategy(stratum=si), lambda case: check_subprocess(case, ctx), seed, n, tier)
     else:
         hyp_run(small_case(min_nonrep=1), lambda case: check_seed(case, ctx), seed, n, tier)
 
@@ -294,9 +315,10 @@ def replay(case, ctx):
             elif how == "run_fresh":
                 r = run_case(c)
             else:
-                if i not in frames:
-                    frames[i] = make_frames(c)
-                r = run_case(c, client=client, frames=frames[i])
+                fk = 0 if case.get("shared") else i
+                if fk not in frames:
+                    frames[fk] = make_frames(pool[fk])
+                r = run_case(c, client=client, frames=frames[fk])
             key = ("ok", digest_of(r, c["office"])) if r.ok else ("exc", type(r.exc).__name__, str(r.exc)[:200])
             if i in first and key != first[i]:
                 ctx.violation("result_differs", f"replayed history: request {i} first {first[i]} now via {how} {key}", case, sig=f"{c['req']['pi']}|{how}")
